@@ -241,10 +241,13 @@ func switchThreading(v *VM) *val.Val {
 			v.pc += w
 
 			m := val.Map(ty.(*types.Type).Map()).Map()
+			// 保持字面量声明的顺序写入(重复 key 后者覆盖前者), 与 closure/interp 一致
+			kvs := make([]*val.Val, 2*sz)
+			for i := 2*sz - 1; i >= 0; i-- {
+				kvs[i] = v.Pop()
+			}
 			for i := 0; i < sz; i++ {
-				vl := v.Pop()
-				key := v.Pop()
-				m.V[key.Key()] = vl
+				m.V[kvs[2*i].Key()] = kvs[2*i+1]
 			}
 			v.Push(m.Vl())
 
